@@ -34,14 +34,14 @@ def run_pipeline(binary, name, cases, engine="pipeline", timeout=3000, env=None)
     return res
 
 
-def generate(ck, cfgname, name, simulate=None, depth=40, workers=1, timeout=900):
+def generate(ck, cfgname, name, simulate=None, depth=40, workers=1, timeout=900, tag="REPLAY"):
     module = "StarkCorrupt.tla" if "Corrupt" in cfgname else "MCStarkCfg.tla"
     r = vf.tlc(module, cfgname, cwd=SPECDIR, workers=workers, simulate=simulate, depth=depth,
                seed=ck.seed if simulate else None, timeout=timeout)
     if not r.ok:
         raise vf.ToolError("generator %s failed (specification bug): %s" % (cfgname, (r.error or "")[:2000]))
     ck.add_tlc(name, r)
-    return r.tagged("REPLAY")
+    return r.tagged(tag)
 
 
 def cfg_signature(case):
